@@ -16,7 +16,7 @@ use crate::tape::Tape;
 
 pub static PROP: PropDef = PropDef {
     id: "C01",
-    rule: "case = 1..3 request/response exchanges (method x target form x header multiset with duplicates x body 0..64 KiB in 0..12 send pieces incl. empty pieces x optional trailers, both directions) \
+    rule: "plus a fixed boundary family (bodies of 63..65537 bytes on the DATA length form boundaries in one and two pieces; 100..33000 field lines in headers / trailers of requests / responses under one or three names); case = 1..3 request/response exchanges (method x target form x header multiset with duplicates x body 0..64 KiB in 0..12 send pieces incl. empty pieces x optional trailers, both directions) \
            x application shape (whole stream or split halves on separate tasks; server answers before / after / while reading) x transport (send credit 0/small/unlimited with tape-chosen grants, stream credit, \
            schedule style eager / tiny / random and every scheduling choice from the tape). oracle: what one application sent == what the other received (method, scheme, authority, path, query, per-name value lists in order, \
            body bytes, trailers iff sent, one clean end of body), no error on any call, no close other than the final H3_NO_ERROR. \
@@ -29,7 +29,7 @@ pub static PROP: PropDef = PropDef {
     tape_len: 700,
     random_cases: |t| t.pick(160_000, 4_000_000),
     run_tape,
-    exhaustive: None,
+    exhaustive: Some(boundary_family),
     run_direct: None,
     min_classes: &[("nontrivial", 300), ("trailers", 500), ("duplicate_names", 500), ("empty_piece", 300), ("split_halves", 500), ("connect_form", 100), ("write_pending", 500), ("style_tiny", 300), ("style_random", 300), ("style_eager", 300)],
     extra: None,
@@ -662,6 +662,71 @@ fn run_tape(tape: &[u16], ctx: &mut Ctx) -> Verdict {
     let mut t = Tape::new(tape);
     let sc = gen_scenario(&mut t);
     run_scenario(&sc, &mut t, ctx)
+}
+
+/// Fixed family of messages whose sizes sit on the boundaries random generation practically never hits: bodies around the
+/// varint form boundaries of the DATA length (in one piece and in two), and header / trailer sections with very many values
+/// (around the limits of the map the fields are collected in: 24576/24577 and 32768 lines).
+fn boundary_family(ctx: &mut Ctx, shard: usize, nshards: usize) -> Verdict {
+    let mut idx = 0usize;
+    let base = |k: u64| -> Scenario {
+        let cells = crate::tape::prf_cells(0xb0_0000 + k, 300);
+        let mut t = Tape::new(&cells);
+        let mut sc = gen_scenario(&mut t);
+        sc.exchanges.truncate(1);
+        sc.concurrent = false;
+        sc.style = Style::Eager;
+        sc.credit = [UNLIMITED, UNLIMITED];
+        sc.client_bidi_credit = UNLIMITED;
+        sc.uni_credit = [UNLIMITED, UNLIMITED];
+        sc
+    };
+    let empty: [u16; 0] = [];
+    for (k, len) in [63usize, 64, 16383, 16384, 16385, 65535, 65536, 65537].into_iter().enumerate() {
+        for two in [false, true] {
+            for resp in [false, true] {
+                idx += 1;
+                if idx % nshards != shard {
+                    continue;
+                }
+                let mut sc = base(k as u64);
+                let body = crate::tape::prf_bytes(len as u64, len);
+                let pieces = if two { vec![body[..len / 2].to_vec(), body[len / 2..].to_vec()] } else { vec![body] };
+                if resp {
+                    sc.exchanges[0].resp.msg.pieces = pieces;
+                } else {
+                    sc.exchanges[0].req.msg.pieces = pieces;
+                }
+                ctx.class("boundary_body_length");
+                run_scenario(&sc, &mut Tape::new(&empty), ctx)?;
+            }
+        }
+    }
+    for (k, n) in [100usize, 24576, 24577, 32768, 33000].into_iter().enumerate() {
+        for place in 0..4u8 {
+            for distinct in [1usize, 3] {
+                idx += 1;
+                if idx % nshards != shard {
+                    continue;
+                }
+                let mut sc = base(100 + k as u64);
+                let many: FieldList = (0..n).map(|i| (format!("x-many-{}", i % distinct), format!("v{i}").into_bytes())).collect();
+                let ex = &mut sc.exchanges[0];
+                match place {
+                    0 => ex.req.msg.fields.extend(many),
+                    1 => ex.resp.msg.fields.extend(many),
+                    2 => ex.req.msg.trailers = Some(many),
+                    _ => ex.resp.msg.trailers = Some(many),
+                }
+                ctx.class("very_many_field_lines");
+                run_scenario(&sc, &mut Tape::new(&empty), ctx)?;
+            }
+        }
+    }
+    if shard == 0 {
+        ctx.subspace("bodies of 63..65537 bytes on the DATA length form boundaries x 1/2 pieces x request/response; 100..33000 field lines x headers/trailers x request/response x 1/3 names", idx as u64);
+    }
+    Ok(())
 }
 
 pub struct Executed {
